@@ -63,7 +63,9 @@ pub struct KCfg {
     pub p_close_err: u32,
     /// SYNC_CANCEL lets ops finish instead of cancelling, percent.
     pub p_sync_cancel_finish: u32,
-    /// Maximum bytes of pattern data per transfer.
+    /// Percent chance IORING_OP_PIPE is "not supported" (EINVAL): a10 falls
+    /// back to the real pipe2(2).
+    pub p_pipe_einval: u32,
     pub pool_pick_any: bool,
 }
 
@@ -91,6 +93,7 @@ impl Default for KCfg {
             register_fail: None,
             p_close_err: 0,
             p_sync_cancel_finish: 0,
+            p_pipe_einval: 0,
             pool_pick_any: false,
         }
     }
@@ -345,6 +348,11 @@ pub struct Kernel {
     /// Memory ranges the application still holds references into: a request
     /// that lets the kernel write there is reported (class, detail).
     pub held_ranges: Vec<(usize, usize, String)>,
+    /// Descriptors whose reads are all-or-nothing (signalfd: the kernel only
+    /// ever returns whole records).
+    pub full_only: Vec<i32>,
+    /// The application is inside `Ring::drop`.
+    pub in_ring_drop: bool,
 }
 
 static KERNEL: Mutex<Option<Kernel>> = Mutex::new(None);
@@ -409,6 +417,8 @@ pub fn reset(cfg: KCfg) {
             dropped_ops: Vec::new(),
             foreign_fds: Vec::new(),
             held_ranges: Vec::new(),
+            full_only: Vec::new(),
+            in_ring_drop: false,
         });
     });
 }
@@ -1325,25 +1335,28 @@ impl Kernel {
                 self.consume(r, u32::MAX);
             }
         } else {
-            if self.cfg.enter_faults
-                && self.rings[r].sq_pending().min(to_submit) == 0
-                && tape::chance(site::FAULT, 1, 12)
-            {
-                let e = if tape::choose(site::FAULT, 2) == 0 {
-                    stats::inc(C::fault_enter_eintr);
+            // EINTR/EBUSY only when nothing would be submitted (as the real
+            // kernel); EAGAIN (out of resources) only when something would.
+            // Never while the Ring is being dropped: a10 documents that it
+            // cannot handle errors there.
+            let nothing = self.rings[r].sq_pending().min(to_submit) == 0;
+            if self.cfg.enter_faults && !self.in_ring_drop && tape::chance(site::FAULT, 1, 12) {
+                // EINTR (signal), EAGAIN (out of resources) or, only while the
+                // completion queue is overflown, EBUSY.
+                let e = if !nothing {
+                    libc::EAGAIN
+                } else if tape::choose(site::FAULT, 2) == 0 || self.rings[r].overflow.is_empty() {
                     libc::EINTR
                 } else {
-                    stats::inc(C::fault_enter_ebusy);
                     libc::EBUSY
                 };
+                stats::inc(match e {
+                    libc::EINTR => C::fault_enter_eintr,
+                    libc::EAGAIN => C::fault_enter_eagain,
+                    _ => C::fault_enter_ebusy,
+                });
                 crate::report::nontrivial();
                 ev!("k enter -> {} (injected)", errno_name(e));
-                // EBUSY is only legal while the CQ is overflown; keep to EINTR otherwise.
-                let e = if e == libc::EBUSY && self.rings[r].overflow.is_empty() {
-                    libc::EINTR
-                } else {
-                    e
-                };
                 return EnterResult::Done(fail(e));
             }
             submitted = self.consume(r, to_submit);
